@@ -420,3 +420,29 @@ def repo_test_traces(focus, timeout=600):
         return batch, int(m.group(1)) if m else 0
     finally:
         shutil.rmtree(d, ignore_errors=True)
+
+
+def simulate(num, depth, seed, timeout=900, max_convs=5):
+    """Long random behaviours of the whole converter world from `tlc -simulate` on mc/MC_Sim.tla
+    (all operations on any live converter).  Returns (histories, stats)."""
+    d = tlc.scratch("sim")
+    try:
+        cfg = os.path.join(d, "sim.cfg")
+        with open(cfg, "w") as f:
+            f.write("SPECIFICATION MCSpec\nCONSTANTS\n  FoldMap <- Fold\n  DefaultDelim <- MCDefaultDelim\n"
+                    f"  MaxConvs = {max_convs}\n  MaxSteps = {depth - 1}\nINVARIANT Inv_Struct\nPROPERTY P_C10\nCHECK_DEADLOCK FALSE\n")
+        tdir = os.path.join(d, "tr")
+        os.makedirs(tdir)
+        workers = 8
+        out, wall, rc = tlc.run_tlc("mc/MC_Sim.tla", cfg, workers=workers, timeout=timeout, simulate=f"file={tdir}/tr,num={max(1, num // workers)}",
+                                    depth=depth, seed=seed)
+        if tlc.violated_invariant(out):
+            raise MachineryError("the simulation model violates its own invariant: " + out[-1500:])
+        states = tlaval.sim_last_states(tdir, want=("hist", "last", "sigs"))
+        import re
+        m = re.search(r"(\d+) states checked", out)
+        hs = [(s["hist"], s.get("last"), s.get("sigs")) for s in states if s.get("hist")]
+        return hs, {"model": "Sim", "instance": "simulate", "behaviours": len(hs), "states_checked": int(m.group(1)) if m else 0,
+                    "depth": depth, "wall_s": round(wall, 1)}
+    finally:
+        shutil.rmtree(d, ignore_errors=True)
